@@ -493,11 +493,12 @@ impl Sender {
                                 format!("serialize() accepted a payload of {} bytes", m.payload.len()),
                             ));
                         }
+                        // The returned mark, not the requested one, defines the droppable set
+                        // (C08 quantifies over "packets returned marked as droppable"); a
+                        // serializer may decline to mark a packet. The mark being set only
+                        // where the application asked is C18's clause, checked on sessions.
                         if p.can_be_dropped != droppable {
-                            return Err(Violation::new(
-                                format!("{}/roundtrip/droppable-flag", prop),
-                                "Packet.can_be_dropped differs from the flag passed in".to_string(),
-                            ));
+                            ctx.probe("a.droppable_mark_differs");
                         }
                         self.last[cls] = (ts, ts.wrapping_sub(pt));
                         self.last_len[cls] = Some(m.payload.len());
@@ -537,6 +538,24 @@ fn payload_to_ref(p: &MessagePayload) -> RefMsg {
         ts: p.timestamp.value,
         payload: p.data.to_vec(),
     }
+}
+
+/// Message equality for the round-trip oracles.  One narrow equivalence: two Set Chunk Size
+/// announcements of 16,777,215 or more mean the same thing (RTMP 1.0 5.4.1: "all sizes greater
+/// than 16777215 are equivalent since no chunk is larger than one message"), so a serializer that
+/// announces the canonical value for a larger request still honours the request.  That the
+/// announced value bounds every later chunk is checked by the strict decoder, which follows the
+/// decoded value, not the requested one.
+pub fn same_msg(a: &RefMsg, b: &RefMsg) -> bool {
+    if a == b {
+        return true;
+    }
+    if a.type_id == 1 && b.type_id == 1 && a.msid == b.msid && a.ts == b.ts && a.payload.len() == 4 && b.payload.len() == 4 {
+        let va = u32::from_be_bytes([a.payload[0], a.payload[1], a.payload[2], a.payload[3]]) & 0x7FFF_FFFF;
+        let vb = u32::from_be_bytes([b.payload[0], b.payload[1], b.payload[2], b.payload[3]]) & 0x7FFF_FFFF;
+        return va >= 0xFF_FFFF && vb >= 0xFF_FFFF;
+    }
+    false
 }
 
 fn diff_msg(a: &RefMsg, b: &RefMsg) -> &'static str {
@@ -589,7 +608,7 @@ pub fn receive_and_compare(
                             format!("deserializer returned a message that was never sent: {}", m.brief()),
                         ));
                     }
-                    if m != expected[got] {
+                    if !same_msg(&m, &expected[got]) {
                         return Err(Violation::new(
                             format!("{}/{}/{}", prop, oracle, diff_msg(&m, &expected[got])),
                             format!(
@@ -680,7 +699,7 @@ pub fn tap_and_compare(
                 format!("reference decoder found an extra message: {}", m.brief()),
             ));
         }
-        if *m != expected[i] {
+        if !same_msg(m, &expected[i]) {
             return Err(Violation::new(
                 format!("{}/{}/{}", prop, oracle, diff_msg(m, &expected[i])),
                 format!(
